@@ -17,6 +17,7 @@ _FN = {
     "uf_atan": math.atan,
     "uf_sinh": math.sinh,
     "uf_cosh": math.cosh,
+    "uf_atan2": math.atan2,
 }
 
 
@@ -48,7 +49,7 @@ def _zeval(t, env, cache):
         if not ch:
             return env[d.name()]
         if d.name() in _FN:
-            return _FN[d.name()](zeval(ch[0], env, cache))
+            return _FN[d.name()](*[zeval(c, env, cache) for c in ch])
         if d.name() in env:  # user supplied python callable for a UF
             return env[d.name()](*[zeval(c, env, cache) for c in ch])
         raise KeyError(d.name())
